@@ -194,6 +194,204 @@ func runC03(c *kit.Ctx) {
 			"peerreader.MaxBlockSize == piece.BlockSize == 16384", "peerreader.MaxBlockSize and piece.BlockSize disagree or differ from 16 KiB")
 		tReq := c.Named("internal/peerprotocol", "RequestMessage")
 		n := 0
+		// "lenOK(root)": the flow "root.Length <= MaxBlockSize" for a local
+		// RequestMessage rooted at alloc `root` in fn; errAlloc (optional) is the
+		// local error slot: "or the error is certainly non-nil" is accepted as
+		// well (used for helpers that return (msg, err)).
+		lenFlow := func(fn *ssa.Function, root ssa.Value, errAlloc ssa.Value, errIs func(*kit.Expr) bool) (*kit.Flow, func(ssa.Instruction) bool) {
+			kills := func(i2 ssa.Instruction) bool {
+				if st, ok := i2.(*ssa.Store); ok {
+					if errAlloc != nil && st.Addr == errAlloc {
+						return !kit.NonNilValue(st.Val)
+					}
+					if fa, ok := st.Addr.(*ssa.FieldAddr); ok && fa.X == root {
+						return true
+					}
+					return st.Addr == root
+				}
+				if cc := kit.CallOf(i2); cc != nil {
+					for _, a := range cc.Args {
+						if a == root {
+							return true
+						}
+						if mi2, ok := a.(*ssa.MakeInterface); ok && mi2.X == root {
+							return true
+						}
+					}
+				}
+				return false
+			}
+			return (&kit.Flow{P: c.Prog, Fn: fn,
+				Edge: func(a kit.Atom) bool {
+					ok, _ := a.UpperBound(func(e *kit.Expr) bool {
+						e = e.Strip()
+						return e.Kind == "field" && e.Field == fReqLength && e.Base().V == root
+					}, func(e *kit.Expr) bool {
+						z, ok := e.Strip().IntConst()
+						return ok && z <= mb
+					})
+					if ok {
+						return true
+					}
+					if errAlloc != nil && a.IsNilCmp(false, func(e *kit.Expr) bool { return e.Kind == "deref" && e.Args[0].V == errAlloc }) {
+						return true
+					}
+					if errIs != nil && a.IsNilCmp(false, errIs) {
+						return true
+					}
+					return false
+				},
+				Instr: func(i2 ssa.Instruction, in bool) bool {
+					if st, ok := i2.(*ssa.Store); ok && errAlloc != nil && st.Addr == errAlloc && kit.NonNilValue(st.Val) {
+						// err = <certainly non-nil>: the message is not delivered by the caller
+						return true
+					}
+					if kills(i2) {
+						return false
+					}
+					return in
+				}}).Solve(), kills
+		}
+		errType := types.Universe.Lookup("error").Type()
+		// checkedByHelper: v = result #i of a call K to a module helper g whose
+		// every return either carries a certainly non-nil error or returns a
+		// message with Length <= MaxBlockSize, and the delivery is dominated by
+		// "K's error result == nil".
+		checkedByHelper := func(v ssa.Value, at ssa.Instruction) (bool, string) {
+			ex, ok := v.(*ssa.Extract)
+			if !ok {
+				return false, ""
+			}
+			K, ok := ex.Tuple.(*ssa.Call)
+			if !ok {
+				return false, ""
+			}
+			g := K.Call.StaticCallee()
+			if g == nil || g.Blocks == nil || !kit.InModule(pkgOf(g)) {
+				return false, ""
+			}
+			res := g.Signature.Results()
+			j := res.Len() - 1
+			if j < 1 || !types.Identical(res.At(j).Type(), errType) || ex.Index == j {
+				return false, ""
+			}
+			// (1) summary of g: on every return, for every value the error result
+			// may carry (phi operands are judged on their incoming edge)
+			for _, r := range returnsOf(g) {
+				if len(r.Results) != res.Len() {
+					return false, "helper " + kit.FuncName(g) + " has an unexpected return shape"
+				}
+				root := rootOfLoad(r.Results[ex.Index])
+				if _, isAlloc := root.(*ssa.Alloc); !isAlloc {
+					return false, "helper " + kit.FuncName(g) + " returns a message that is not a checked local"
+				}
+				type errSrc struct {
+					v    ssa.Value
+					pred *ssa.BasicBlock
+				}
+				srcs := []errSrc{{r.Results[j], nil}}
+				if phi, ok := r.Results[j].(*ssa.Phi); ok && phi.Block() == r.Block() {
+					srcs = nil
+					for i, e := range phi.Edges {
+						srcs = append(srcs, errSrc{e, phi.Block().Preds[i]})
+					}
+				}
+				for _, sc := range srcs {
+					ev := sc.v
+					if kit.NonNilValue(ev) || isErrSentinel(kit.Canon(ev)) {
+						continue // error return
+					}
+					var errAlloc ssa.Value
+					var errIs func(*kit.Expr) bool
+					if ea, isAlloc := rootOfLoad(ev).(*ssa.Alloc); isAlloc {
+						errAlloc = ea
+					} else if !kit.Canon(ev).IsNil() {
+						errIs = func(e *kit.Expr) bool { return e.V == ev }
+					}
+					fl, kills := lenFlow(g, root, errAlloc, errIs)
+					ok := false
+					if sc.pred == nil {
+						ok = fl.Before(r)
+					} else {
+						ok = fl.OnEdge(sc.pred, r.Block())
+						for _, i2 := range r.Block().Instrs {
+							if i2 == ssa.Instruction(r) {
+								break
+							}
+							if kills(i2) {
+								ok = false
+							}
+						}
+					}
+					if !ok {
+						return false, "helper " + kit.FuncName(g) + " can return a message with Length > MaxBlockSize together with a nil error"
+					}
+				}
+			}
+			// (2) the caller delivers only under err == nil
+			fn := K.Parent()
+			var errEx []*ssa.Extract
+			for _, r := range *K.Referrers() {
+				if e2, ok := r.(*ssa.Extract); ok && e2.Index == j {
+					errEx = append(errEx, e2)
+				}
+			}
+			isErrEx := func(v ssa.Value) bool {
+				for _, e2 := range errEx {
+					if ssa.Value(e2) == v {
+						return true
+					}
+				}
+				return false
+			}
+			// slot flows: "alloc A currently holds K's error result"
+			slot := map[ssa.Value]*kit.Flow{}
+			for _, e2 := range errEx {
+				for _, r := range *e2.Referrers() {
+					if st, ok := r.(*ssa.Store); ok && st.Val == ssa.Value(e2) {
+						A := st.Addr
+						if _, isAlloc := A.(*ssa.Alloc); !isAlloc || slot[A] != nil {
+							continue
+						}
+						slot[A] = (&kit.Flow{P: c.Prog, Fn: fn, Instr: func(i2 ssa.Instruction, in bool) bool {
+							if i2 == ssa.Instruction(K) {
+								return false
+							}
+							if st2, ok := i2.(*ssa.Store); ok && st2.Addr == A {
+								return isErrEx(st2.Val)
+							}
+							return in
+						}}).Solve()
+					}
+				}
+			}
+			errNil := (&kit.Flow{P: c.Prog, Fn: fn,
+				Edge: func(a kit.Atom) bool {
+					return a.IsNilCmp(true, func(e *kit.Expr) bool {
+						if isErrEx(e.V) {
+							return true
+						}
+						if e.Kind == "deref" {
+							if fl := slot[e.Args[0].V]; fl != nil {
+								if ld, ok := e.V.(ssa.Instruction); ok {
+									return fl.Before(ld)
+								}
+							}
+						}
+						return false
+					})
+				},
+				Instr: func(i2 ssa.Instruction, in bool) bool {
+					if i2 == ssa.Instruction(K) {
+						return false
+					}
+					return in
+				}}).Solve()
+			if !errNil.Before(at) {
+				return false, "message returned by " + kit.FuncName(g) + " is delivered without testing that helper's error result"
+			}
+			return true, "checked by " + kit.FuncName(g) + " (Length <= MaxBlockSize or non-nil error on every return), delivered under err == nil"
+		}
 		kit.Instrs(run, func(ins ssa.Instruction) {
 			mi, ok := ins.(*ssa.MakeInterface)
 			if !ok || derefNamed(mi.X.Type()) != tReq {
@@ -204,6 +402,23 @@ func runC03(c *kit.Ctx) {
 			}
 			n++
 			key := k.key(run, "deliver RequestMessage")
+			// the arm may have been moved into a helper returning (msg, err)
+			src := mi.X
+			if ld, ok := src.(*ssa.UnOp); ok && ld.Op == token.MUL {
+				if a, ok := ld.X.(*ssa.Alloc); ok {
+					if v := singleStoredValue(a); v != nil {
+						src = v
+					}
+				}
+			}
+			if _, isEx := src.(*ssa.Extract); isEx {
+				ok, why := checkedByHelper(src, ins)
+				if why == "" {
+					why = "request message delivered from " + kit.Canon(mi.X).String() + ": cannot relate it to the length check"
+				}
+				c.Check(ok, "R03.3", key, posOf(ins), "RequestMessage "+why, why+": the writer's fixed frame buffer would be overrun / over-long blocks served")
+				return
+			}
 			// the value boxed is a load of a local; find the alloc
 			ld, _ := mi.X.(*ssa.UnOp)
 			var alloc ssa.Value
@@ -214,34 +429,7 @@ func runC03(c *kit.Ctx) {
 				c.Bad("R03.3", key, posOf(ins), "request message delivered from %s: cannot relate it to the length check", kit.Canon(mi.X))
 				return
 			}
-			fl := c.AtomFlow(run, func(a kit.Atom) bool {
-				ok, _ := a.UpperBound(func(e *kit.Expr) bool {
-					e = e.Strip()
-					return e.Kind == "field" && e.Field == fReqLength && e.Base().V == alloc
-				}, func(e *kit.Expr) bool {
-					z, ok := e.Strip().IntConst()
-					return ok && z <= mb
-				})
-				return ok
-			}, func(i2 ssa.Instruction) bool {
-				if st, ok := i2.(*ssa.Store); ok {
-					if fa, ok := st.Addr.(*ssa.FieldAddr); ok && fa.X == alloc {
-						return true
-					}
-					return st.Addr == alloc
-				}
-				if cc := kit.CallOf(i2); cc != nil {
-					for _, a := range cc.Args {
-						if a == alloc {
-							return true
-						}
-						if mi2, ok := a.(*ssa.MakeInterface); ok && mi2.X == alloc {
-							return true
-						}
-					}
-				}
-				return false
-			})
+			fl, _ := lenFlow(run, alloc, nil, nil)
 			c.Check(fl.Before(ins), "R03.3", key, posOf(ins),
 				"RequestMessage delivered only under Length <= MaxBlockSize", "RequestMessage can be delivered with Length > MaxBlockSize: the writer's fixed frame buffer would be overrun / over-long blocks served")
 		})
@@ -300,7 +488,8 @@ func runC03(c *kit.Ctx) {
 		for _, s := range sortSites(c.CallSites(cpNew)) {
 			n++
 			a := kit.Canon(s.Instr.Common().Args[3])
-			c.Check(a.IsField(fPeerID), "R03.6", k.key(s.Fn, "cache key prefix"), posOf(s.Instr),
+			isID := c.HoldsForValue(s.Instr.Common().Args[3], 2, func(v ssa.Value) bool { return kit.Canon(v).IsField(fPeerID) })
+			c.Check(isID, "R03.6", k.key(s.Fn, "cache key prefix"), posOf(s.Instr),
 				"cache key prefix is torrent.peerID", "read-cache key prefix "+a.String()+" is not the torrent's own peer id: blocks of different torrents can collide in the session-wide cache")
 		}
 		c.Floor("R03.6", "cachedpiece.New sites", n, 2)
@@ -348,7 +537,9 @@ func runC03(c *kit.Ctx) {
 		fCPid := c.Field("internal/cachedpiece", "CachedPiece", "peerID")
 		fPIndex := c.Field("internal/piece", "Piece", "Index")
 		hasID, hasIdx, hasBlk := false, false, false
-		kit.Instrs(rb, func(ins ssa.Instruction) {
+		// inlined view: the key may be built in a helper (cacheKey(blk)); a value
+		// that is the helper's parameter is followed to the arguments at its call sites
+		c.InstrsDeep(rb, kit.DefaultDeep, false, func(ins ssa.Instruction) {
 			cc := kit.CallOf(ins)
 			if cc == nil {
 				return
@@ -357,10 +548,12 @@ func runC03(c *kit.Ctx) {
 				hasID = true
 			}
 			if cc.StaticCallee() != nil && cc.StaticCallee().Name() == "PutUint32" {
-				v := kit.Canon(cc.Args[len(cc.Args)-1])
-				if v.IsField(fPIndex) {
+				av := cc.Args[len(cc.Args)-1]
+				if c.HoldsForValue(av, 2, func(v ssa.Value) bool { return kit.Canon(v).IsField(fPIndex) }) {
 					hasIdx = true
-				} else if v.Mentions(func(e *kit.Expr) bool { return e.Kind == "binop" && e.Op == token.QUO }) {
+				} else if c.HoldsForValue(av, 2, func(v ssa.Value) bool {
+					return kit.Canon(v).Mentions(func(e *kit.Expr) bool { return e.Kind == "binop" && e.Op == token.QUO })
+				}) {
 					hasBlk = true
 				}
 			}
@@ -373,17 +566,28 @@ func runC03(c *kit.Ctx) {
 	{
 		fCur := c.Field("internal/peerconn/peerwriter", "PeerWriter", "currentQueuedRequests")
 		fMax := c.Field("internal/peerconn/peerwriter", "PeerWriter", "maxQueuedRequests")
-		qm := c.Func("internal/peerconn/peerwriter", "(*PeerWriter).queueMessage")
-		under := c.AtomFlow(qm, func(a kit.Atom) bool {
-			ok, strict := a.UpperBound(func(e *kit.Expr) bool { return e.IsField(fCur) }, func(e *kit.Expr) bool { return e.IsField(fMax) })
-			return ok && strict
-		}, func(ins ssa.Instruction) bool { _, st := kit.StoresField(ins, fCur); return st })
+		// field-keyed (function-agnostic) fact, evaluated with caller context: the
+		// increment may sit in a helper called under the cap test
+		under := &kit.Spec{P: c.Prog, Deep: kit.DefaultDeep,
+			Edge: func(a kit.Atom) bool {
+				ok, strict := a.UpperBound(func(e *kit.Expr) bool { return e.IsField(fCur) }, func(e *kit.Expr) bool { return e.IsField(fMax) })
+				return ok && strict
+			},
+			Instr: func(ins ssa.Instruction, in bool) bool {
+				if _, st := kit.StoresField(ins, fCur); st {
+					return false
+				}
+				if _, st := kit.StoresField(ins, fMax); st {
+					return false
+				}
+				return in
+			}}
 		n := 0
 		for _, st := range fieldStores(c, fCur) {
 			v := kit.Canon(st.Val)
 			if v.Kind == "binop" && v.Op == token.ADD {
 				n++
-				c.Check(st.Fn == qm && under.Before(st.Store), "R03.5", k.key(st.Fn, "queue upload"), posOf(st.Store),
+				c.Check(under.Holds(st.Store, 2), "R03.5", k.key(st.Fn, "queue upload"), posOf(st.Store),
 					"upload queued only under currentQueuedRequests < maxQueuedRequests", "queued-upload counter incremented without the cap test")
 			}
 		}
@@ -469,6 +673,30 @@ func runReaderContract(c *kit.Ctx, k *keyer) {
 		}
 	}
 	c.Floor("R03.4", "ReadAt implementations in the module", n, 3)
+}
+
+// singleStoredValue returns the value of the only store into the local a
+// when a is otherwise only loaded (no field stores, no escaping address), or
+// nil.
+func singleStoredValue(a *ssa.Alloc) ssa.Value {
+	var val ssa.Value
+	for _, r := range *a.Referrers() {
+		switch x := r.(type) {
+		case *ssa.Store:
+			if x.Addr != ssa.Value(a) || val != nil {
+				return nil
+			}
+			val = x.Val
+		case *ssa.UnOp:
+			if x.Op != token.MUL {
+				return nil
+			}
+		case *ssa.DebugRef:
+		default:
+			return nil
+		}
+	}
+	return val
 }
 
 // rootOfLoad maps a load of a local (alloc) to the alloc itself, so that
